@@ -565,19 +565,7 @@ theorem popAssocs_inserts (u : UC) : ∀ (stmts : List Stmt) (s : BState), (∀ 
 
 theorem build_inserts (u : UC) (stmts : List Stmt) (h : ∀ st ∈ stmts, IsInsert st) :
     build u stmts = popInstances u stmts BState.empty := by
-  have hp : touchesInternals stmts = false := by
-    unfold touchesInternals
-    rw [List.any_eq_false]
-    intro st hst
-    have := h st hst
-    cases st with
-    | insert k v n => cases n with
-      | none => simp [Stmt.pyNames]
-      | some _ => simp [IsInsert] at this
-    | createTable _ _ => simp [IsInsert] at this
-    | createRop _ _ _ _ _ _ _ _ _ => simp [IsInsert] at this
-    | createIndex _ _ _ => simp [IsInsert] at this
-  rw [build_eq_core u stmts hp]
+  rw [build_eq_core u stmts]
   unfold buildCore
   simp only [popClasses_inserts u stmts _ h, popIdents_inserts u stmts _ h, popAssocs_inserts u stmts _ h]
 
@@ -714,18 +702,23 @@ theorem inferAttrs_core (u : UC) (attrs : List (Name × Name)) (h : ∀ a ∈ at
   | none => rw [ht] at hs; simp at hs
   | some t => simp only [(guessedName_core u a0.2 t ht).2, Option.isSome_some]
 
-theorem isDunder_positional (i : Nat) : isDunder ('_' :: natText i) = false := by
-  obtain ⟨d, ds, h⟩ := natText_cons i
-  have hd : d ≠ '_' := ne_of_isAsciiDigit (natText_all_digit i d (by rw [h]; simp)) (by decide)
-  rw [h]
-  simp [isDunder, hd]
-
 /-- the inferred metamodel is closed again -/
 theorem closed_inferred (u : UC) (m : MM) (hm : m.Closed u) : (m.inferred u).Closed u := by
   have hmem : ∀ c' ∈ (m.inferred u).classes, ∃ c ∈ m.classes, c' = inferClass u c := by
     intro c' hc'
     simp only [MM.inferred, List.mem_map, List.mem_filter] at hc'
     obtain ⟨c, ⟨hc, _⟩, rfl⟩ := hc'; exact ⟨c, hc, rfl⟩
+  have hplain : ∀ c' ∈ (m.inferred u).classes, ∀ a ∈ c'.attrs, isDunder a.1 = false := by
+    intro c' hc' a ha
+    obtain ⟨c, _, rfl⟩ := hmem c' hc'
+    have : a.1 ∈ positionalNames c.attrs.length := by
+      have h2 : (inferAttrs u c.attrs).map (fun a => a.1) = positionalNames c.attrs.length := by
+        unfold inferAttrs
+        exact List.map_fst_zip (by simp [positionalNames])
+      rw [← h2]; exact List.mem_map.mpr ⟨a, ha, rfl⟩
+    simp only [positionalNames, List.mem_map] at this
+    obtain ⟨i, _, hi⟩ := this
+    rw [← hi]; exact isDunder_positional i
   refine ⟨?_, ?_, ?_, ?_, ?_, ?_, ?_, ?_⟩
   · simp only [MM.inferred, List.map_map]
     have : (m.classes.filter fun c => !c.rows.isEmpty).map ((fun c => u.upper c.kind) ∘ inferClass u) =
@@ -758,17 +751,8 @@ theorem closed_inferred (u : UC) (m : MM) (hm : m.Closed u) : (m.inferred u).Clo
         exact List.map_fst_zip (by simp [positionalNames])
       rw [h2]
     rw [this]
-    exact positionalNames_upper_nodup u c.attrs.length
-  · intro c' hc' a ha
-    obtain ⟨c, _, rfl⟩ := hmem c' hc'
-    have : a.1 ∈ positionalNames c.attrs.length := by
-      have h2 : (inferAttrs u c.attrs).map (fun a => a.1) = positionalNames c.attrs.length := by
-        unfold inferAttrs
-        exact List.map_fst_zip (by simp [positionalNames])
-      rw [← h2]; exact List.mem_map.mpr ⟨a, ha, rfl⟩
-    simp only [positionalNames, List.mem_map] at this
-    obtain ⟨i, _, hi⟩ := this
-    rw [← hi]; exact isDunder_positional i
+    exact ⟨positionalNames_upper_nodup u c.attrs.length, hplain _ hc'⟩
+  · exact hplain
   · intro a ha; simp [MM.inferred] at ha
 
 /-- inferring again changes nothing -/
